@@ -162,7 +162,7 @@ Arguments CAlloc {p} _ _. Arguments CEmit {p} _ _ _. Arguments CRaiseIf {p} _ _ 
    order-independent inside a linear combination, zero coefficients dropped, coefficients mod p,
    multiplicands unordered; everything else in order *)
 Definition hq : Z := 2305843009213693951.      (* 2^61 - 1 *)
-Definition hr (v : var) : Z := Zpow_mod 3 (v + 1048576) hq.
+Definition hr (v : var) : Z := let t := v + 1048576 in ((((t * t) mod hq) * t) mod hq + 12345 * ((t * t) mod hq) + 6789 * t + 1) mod hq.
 Definition hlc (p : Z) (l : lc) : Z := fold_left (fun acc vc => (acc + (snd vc mod p) * hr (fst vc)) mod hq) l 0.
 Definition hmix (h x : Z) : Z := (h * 1000003 + (x mod hq)) mod hq.
 Definition hcon (p : Z) (c : lc * lc * lc) : Z :=
